@@ -103,7 +103,7 @@ func (l lobe) sigma() float64 {
 // in (v, phi) and keeps the Jacobian bounded for everything else.
 
 type warp struct {
-	kind  string // "pow", "hg", "cap", "uniform"
+	kind  string    // "pow", "hg", "cap", "uniform"
 	alpha []float64 // pow: the exponent of the primary followed by a geometric ladder of broader lobes
 	aw    []float64 // pow: their weights (sum 1)
 	g     float64
@@ -368,7 +368,7 @@ func (q *integ) setFrame(fr frame, wp warp) {
 		t1, t2 := k.axis.Dot(fr.e1), k.axis.Dot(fr.e2)
 		k.rho = math.Hypot(t1, t2)
 		k.psi = math.Atan2(t2, t1)
-		beta := math.Atan2(k.rho, k.c)                          // angle between the frame axis and the circle's axis
+		beta := math.Atan2(k.rho, k.c)                         // angle between the frame axis and the circle's axis
 		gamma := math.Acos(math.Max(-1, math.Min(1, k.kappa))) // angular radius of the circle
 		th1, th2 := math.Abs(beta-gamma), beta+gamma
 		if th2 > math.Pi {
@@ -643,13 +643,13 @@ func wilsonHilferty(x2 float64, k int) float64 {
 }
 
 type chiResult struct {
-	x2     float64
-	k      int
-	z      float64
-	effect float64 // (x2 - k)/N: estimate of the Pearson divergence sum (p-q)^2/q
-	pooled float64 // expectation of the pool
+	x2      float64
+	k       int
+	z       float64
+	effect  float64 // (x2 - k)/N: estimate of the Pearson divergence sum (p-q)^2/q
+	pooled  float64 // expectation of the pool
 	poolObs int
-	worst  int // index of the cell with the largest contribution
+	worst   int // index of the cell with the largest contribution
 }
 
 // chiSquare compares observed counts with expectations; cells with an expectation
